@@ -194,7 +194,9 @@ Definition resolve_from_cache (c : cache) (ty inst : bytes) : option obs :=
   | [] => None
   end.
 
-(* resolve_updated_instances *)
+(* resolve_updated_instances: the resolved set is read as it was before the loop; instances that
+   became unresolvable are reported under every browsed name pointing to them and leave the set
+   after the loop, the resolved ones enter it *)
 Definition resolve_updated (d : dstate) (updated : list bytes) : dstate * list obs :=
   let c := d_cache d in
   let cands := flat_map (fun kv =>
@@ -203,16 +205,18 @@ Definition resolve_updated (d : dstate) (updated : list bytes) : dstate * list o
                                          | Some inst => if mem inst updated then [(fst kv, inst)] else []
                                          | None => [] end) (snd kv)
                  else []) (c_ptr c) in
-  fold_left (fun acc ti =>
-               let '(st, out) := acc in
-               let '(ty, inst) := ti in
-               match resolve_from_cache c ty inst with
-               | Some ev => (set_cache c (add_set inst (d_resolved st)) st, out ++ [ev])
-               | None =>
-                 if mem inst (d_resolved st)
-                 then (set_cache c (filter (fun x => negb (beq x inst)) (d_resolved st)) st, out ++ [ORemoved ty inst])
-                 else (st, out)
-               end) cands (d, []).
+  let '(now_resolved, no_longer, out) :=
+    fold_left (fun (acc : list bytes * list bytes * list obs) (ti : bytes * bytes) =>
+                 let '(now_resolved, no_longer, out) := acc in
+                 let '(ty, inst) := ti in
+                 match resolve_from_cache c ty inst with
+                 | Some ev => (add_set inst now_resolved, no_longer, out ++ [ev])
+                 | None =>
+                   if mem inst (d_resolved d)
+                   then (now_resolved, add_set inst no_longer, out ++ [ORemoved ty inst])
+                   else (now_resolved, no_longer, out)
+                 end) cands ([], [], []) in
+  (set_cache c (union_set (filter (fun x => negb (mem x no_longer)) (d_resolved d)) now_resolved) d, out).
 
 (* notify_service_removal *)
 Definition notify_removed (d : dstate) (removed : list (bytes * list bytes)) : list obs :=
@@ -271,9 +275,13 @@ Definition handle_response (d : dstate) (intf : myintf) (m : msg) : dstate * lis
     let '(d', evs) := resolve_updated (set_cache c (d_resolved d) d) updated in
     (d', found ++ evs).
 
+Definition add_retrans (r : list (N * rcmd)) (d : dstate) : dstate :=
+  mkD (d_os d) (d_intfs d) (d_regs d) (d_sels d) (d_svcs d) (d_cache d) (d_browsed d) (d_resolved d)
+      (d_interval d) (d_next_check d) (d_retrans d ++ r).
+
 (* ---- add_interface / del_interface_addr / apply_intf_selections ------------------------------------ *)
 
-Definition add_interface (d : dstate) (i : iface) : dstate * list obs :=
+Definition add_interface (now : N) (d : dstate) (i : iface) : dstate * list obs :=
   let idx := i_index i in
   let '(intfs', new_addr) :=
     match intf_get idx (d_intfs d) with
@@ -290,19 +298,22 @@ Definition add_interface (d : dstate) (i : iface) : dstate * list obs :=
       let v4 := is_v4 (i_ip i) in
       (* services with automatic addresses take the new address and are announced on the
          socket of its family *)
-      let '(svcs', sent) :=
-        fold_left (fun (acc : list (bytes * dsvc) * list obs) (kv : bytes * dsvc) =>
-                     let '(svcs, sent) := acc in
+      let '(svcs', sent, resend) :=
+        fold_left (fun (acc : list (bytes * dsvc) * list obs * list (N * rcmd)) (kv : bytes * dsvc) =>
+                     let '(svcs, sent, resend) := acc in
                      let ds := snd kv in
                      if ds_auto ds then
                        let ds1 := svc_insert_ip (i_ip i) ds in
                        match announce_on (ds_svc ds1) my_intf v4 with
                        | Some p => (svcs ++ [(fst kv, mkDsvc (ds_svc ds1) true (status_set idx Announced (ds_status ds1)))],
-                                    sent ++ [OSent (reroute (d_os d) my_intf p)])
-                       | None => (svcs ++ [(fst kv, mkDsvc (ds_svc ds1) true (status_set idx Probing (ds_status ds1)))], sent)
+                                    sent ++ [OSent (reroute (d_os d) my_intf p)],
+                                    (* announced a second time one second later *)
+                                    resend ++ [(now + 1000, RRegisterResend (fst kv) idx)])
+                       | None => (svcs ++ [(fst kv, mkDsvc (ds_svc ds1) true (status_set idx Probing (ds_status ds1)))],
+                                  sent, resend)
                        end
-                     else (svcs ++ [kv], sent)) (d_svcs d1) ([], []) in
-      (upd_svcs (fun _ => svcs') d1, sent ++ [OIpAdd (i_ip i)])
+                     else (svcs ++ [kv], sent, resend)) (d_svcs d1) ([], [], []) in
+      (add_retrans resend (upd_svcs (fun _ => svcs') d1), sent ++ [OIpAdd (i_ip i)])
     end.
 
 Definition del_interface_addr (d : dstate) (i : iface) : dstate * list obs :=
@@ -327,10 +338,10 @@ Definition del_interface_addr (d : dstate) (i : iface) : dstate * list obs :=
     else (d, [])
   end.
 
-Definition apply_intf_selections (d : dstate) (tbl : list iface) : dstate * list obs :=
+Definition apply_intf_selections (now : N) (d : dstate) (tbl : list iface) : dstate * list obs :=
   fold_left (fun (acc : dstate * list obs) (im : iface * bool) =>
                let '(st, out) := acc in
-               let '(st', o) := if snd im then add_interface st (fst im) else del_interface_addr st (fst im) in
+               let '(st', o) := if snd im then add_interface now st (fst im) else del_interface_addr st (fst im) in
                (st', out ++ o))
             (combine tbl (selection_marks apply_selection_default (d_sels d) tbl)) (d, []).
 
@@ -340,7 +351,7 @@ Definition os_has (tbl : list iface) (idx : N) (a : ifaddr) : bool :=
   existsb (fun i => (i_index i =? idx) && ifaddr_eqb (i_addr i) a) tbl.
 Definition os_has_index (tbl : list iface) (idx : N) : bool := existsb (fun i => i_index i =? idx) tbl.
 
-Definition check_ip_changes (d : dstate) : dstate * list obs :=
+Definition check_ip_changes (now : N) (d : dstate) : dstate * list obs :=
   let tbl := d_os d in
   (* addresses that vanished, interfaces left without any address *)
   let kept := map (fun m => mkMyIntf (mi_name m) (mi_index m)
@@ -362,7 +373,7 @@ Definition check_ip_changes (d : dstate) : dstate * list obs :=
                  let ev1 := notify_removed st2 (rm_removed rmv) in
                  let '(st3, ev2) := resolve_updated st2 (rm_modified rmv) in
                  (st3, out ++ ev1 ++ ev2)) deleted_intfs (d2, []) in
-  let '(d4, ev_apply) := apply_intf_selections d3 tbl in
+  let '(d4, ev_apply) := apply_intf_selections now d3 tbl in
   (d4, ev_del ++ ev_cache ++ ev_apply).
 
 (* ---- datagrams ---------------------------------------------------------------------------------------- *)
@@ -410,10 +421,6 @@ Fixpoint svc_get (k : bytes) (l : list (bytes * dsvc)) : option dsvc :=
   | [] => None
   | (k', v) :: t => if beq k' k then Some v else svc_get k t
   end.
-
-Definition add_retrans (r : list (N * rcmd)) (d : dstate) : dstate :=
-  mkD (d_os d) (d_intfs d) (d_regs d) (d_sels d) (d_svcs d) (d_cache d) (d_browsed d) (d_resolved d)
-      (d_interval d) (d_next_check d) (d_retrans d ++ r).
 
 (* register_service: automatic addresses, send_unsolicited_response, insertion *)
 Definition do_register (now : N) (d : dstate) (s : service) (auto : bool) : dstate * list obs :=
@@ -476,11 +483,11 @@ Definition do_call (now : N) (d : dstate) (c : call) : dstate * list obs :=
   match c with
   | CEnable ks =>
     let sels := push_selections (d_sels d) ks true (d_os d) in
-    apply_intf_selections (mkD (d_os d) (d_intfs d) (d_regs d) sels (d_svcs d) (d_cache d) (d_browsed d) (d_resolved d)
+    apply_intf_selections now (mkD (d_os d) (d_intfs d) (d_regs d) sels (d_svcs d) (d_cache d) (d_browsed d) (d_resolved d)
                                (d_interval d) (d_next_check d) (d_retrans d)) (d_os d)
   | CDisable ks =>
     let sels := push_selections (d_sels d) ks false (d_os d) in
-    apply_intf_selections (mkD (d_os d) (d_intfs d) (d_regs d) sels (d_svcs d) (d_cache d) (d_browsed d) (d_resolved d)
+    apply_intf_selections now (mkD (d_os d) (d_intfs d) (d_regs d) sels (d_svcs d) (d_cache d) (d_browsed d) (d_resolved d)
                                (d_interval d) (d_next_check d) (d_retrans d)) (d_os d)
   | CRegister s auto => do_register now d s auto
   | CUnregister key => do_unregister now d key
@@ -548,7 +555,7 @@ Definition iterate (d : dstate) (s : step) : dstate * list obs :=
   let '(d4, o4) :=
     if d_interval d3 =? 0 then (set_next 0 d3, [])
     else if d_next_check d3 =? 0 then (set_next (now + d_interval d3) d3, [])
-    else if ip_check_due now (d_next_check d3) then check_ip_changes (set_next (now + d_interval d3) d3)
+    else if ip_check_due now (d_next_check d3) then check_ip_changes now (set_next (now + d_interval d3) d3)
     else (d3, []) in
   (d4, o1 ++ o2 ++ o3 ++ o4).
 
